@@ -103,7 +103,7 @@ func RunFiles(cfg hx.Config, dir string, files map[string]string, onlyGenerated 
 	if err := hx.WriteFiles(dir, files); err != nil {
 		return Outcome{Class: "harness-error", Detail: err.Error()}
 	}
-	r := hx.Goderive(cfg.Goderive, dir, ".")
+	r := goderiveRetry(cfg.Goderive, dir, ".")
 	cls, det := classifyRun(r)
 	o := Outcome{Class: cls, Detail: det, Out: hx.Truncate(r.Out, 2000)}
 	if cls == "ok" {
@@ -117,4 +117,23 @@ func RunFiles(cfg hx.Config, dir string, files map[string]string, onlyGenerated 
 		}
 	}
 	return o
+}
+
+// goderiveRetry: a run that hit hx.Goderive's 30 s limit is repeated once with four times the limit (same
+// address-space limit).  A run on the broken-file package costs 3 s of CPU (the package is loaded again,
+// with the standard library from source, after every round of generation); with a dozen checks in parallel
+// on the machine (load 300-650 on 16 cores) that exceeded 30 s of wall clock again and again and was
+// reported as a hang.  A real hang of goderive also exceeds the longer limit and is reported as before.
+func goderiveRetry(bin, dir string, args ...string) hx.RunResult {
+	r := hx.Goderive(bin, dir, args...)
+	if r.TimedOut {
+		filepath.Walk(dir, func(p string, info os.FileInfo, err error) error {
+			if err == nil && !info.IsDir() && info.Name() == "derived.gen.go" {
+				os.Remove(p)
+			}
+			return nil
+		})
+		r = hx.Run(dir, 120*time.Second, 3000000, hx.GoEnv(), bin, args...)
+	}
+	return r
 }
